@@ -33,3 +33,43 @@ func VxNewMapOf[K comparable, V any](tableLen, minLen int, hasher func(K, uint64
 
 func VxStrHasher(s string, seed uint64) uint64 { return VxHashStr(s, seed) }
 func VxIntHasher(k int, seed uint64) uint64    { return VxHashU64(uint64(k), seed) }
+
+// VxMapQuiescent: no lock held, no resize pending (used by re-entrancy harnesses).
+func VxMapQuiescent(m *Map) bool {
+	if atomic.LoadInt64(&m.resizing) != 0 {
+		return false
+	}
+	if !m.resizeMu.TryLock() {
+		return false
+	}
+	m.resizeMu.Unlock()
+	t := (*mapTable)(atomic.LoadPointer(&m.table))
+	ok := true
+	for i := 0; i < len(t.buckets); i++ {
+		if t.buckets[i].topHashMutex&1 != 0 {
+			ok = false
+		}
+	}
+	return ok
+}
+
+// VxMapOfQuiescent: MapOf twin of VxMapQuiescent.
+func VxMapOfQuiescent[K comparable, V any](m *MapOf[K, V]) bool {
+	if atomic.LoadInt64(&m.resizing) != 0 {
+		return false
+	}
+	if !m.resizeMu.TryLock() {
+		return false
+	}
+	m.resizeMu.Unlock()
+	t := (*mapOfTable[K, V])(atomic.LoadPointer(&m.table))
+	ok := true
+	for i := 0; i < len(t.buckets); i++ {
+		if !t.buckets[i].mu.TryLock() {
+			ok = false
+		} else {
+			t.buckets[i].mu.Unlock()
+		}
+	}
+	return ok
+}
